@@ -11,6 +11,7 @@ def kind? : List Sexp → Option Kind
   | [.atom "error", n] => n.nat?.map .error
   | [.atom "taskOk", n] => n.nat?.map .taskOk
   | [.atom "taskErr", n] => n.nat?.map .taskErr
+  | [.atom "lazySelfSet", n] => n.nat?.map (fun v => .lazySelfSet v (v + 1))
   | _ => none
 
 def op? : Sexp → Option Op
